@@ -1777,6 +1777,9 @@ def _blas_is_applicable(*args):
     elif not (all(x.flags.f_contiguous for x in args) or
               all(x.flags.c_contiguous for x in args)):
         return False
+    elif not all(x.flags.aligned for x in args):
+        # The BLAS wrappers copy unaligned arrays, writes would be lost
+        return False
     elif any(x.size > np.iinfo('int32').max for x in args):
         # Temporary fix for 32 bit int overflow in BLAS
         # TODO: use chunking instead
